@@ -225,6 +225,18 @@ def run(rep, tier, build, replay=None):
             evals += 1
             check_scope(rep, uni, None, list(uni.order), rec['obs'][-1], rec['lexicons'],
                         dict(case0, scope='default mode'), stats, default_mode=True)
+    # tie to Model/Add.v: the tables after each in-memory add against the model's tables, row for row
+    import addmodel
+    k = 12 if tier == 'quick' else 150
+    hs = [{'ops': [['add', res] for _n, res in u['resources']]} for u in unis[:k]]
+    touts = common.run_impl_parallel('run_trace.py', [{'histories': hs[i::nsh]} for i in range(nsh) if hs[i::nsh]])
+    pb = {'run_add': [], 'run_remove': [], 'run_add_ili': []}
+    idx = [i for i in range(nsh) if hs[i::nsh]]
+    for i, o in zip(idx, touts):
+        for h, rec in zip(hs[i::nsh], o):
+            for fn, ps in addmodel.trace_pairs(h['ops'], rec).items():
+                pb[fn] += ps
+    addmodel.run_correspondence(rep, common, pb, 'c01')
     rep.coverage.update({
         'evaluations': evals,
         'distinct_nontrivial': len(nontriv),
@@ -239,4 +251,3 @@ def run(rep, tier, build, replay=None):
     })
     rep.samples.append({'resource_names': [n_ for n_, _ in unis[0]['resources']],
                         'first_lexicon': unis[0]['resources'][0][1]['lexicons'][0]['entries'][:1]})
-    rep.notes.append('correspondence with the Coq add-model: see evidence of the Model/Add.v stage (added when built)')
